@@ -323,7 +323,7 @@ R_<TG_, TA_>::reset() noexcept {
 	// TODO: clear _core.planData		// HFSM2_IF_PLANS()
 	// TODO: clear _activityHistory		// HFSM2_IF_STRUCTURE_REPORT()
 
-	_apex.deepRequestChange(control, {TransitionType::RESTART, INVALID_SHORT});
+	_apex.deepRequestChange(control, {TransitionType::RESTART, INVALID_SHORT, INVALID_STATE_ID});
 	_apex.deepEnter(control);
 
 	_core.registry.clearRequests();
@@ -421,7 +421,7 @@ R_<TG_, TA_>::initialEnter() noexcept {
 
 	PlanControl control{_core, currentTransitions};
 
-	_apex.deepRequestChange(control, {TransitionType::CHANGE, INVALID_SHORT});
+	_apex.deepRequestChange(control, {TransitionType::CHANGE, INVALID_SHORT, INVALID_STATE_ID});
 
 	approvedByEntryGuards(currentTransitions,
 						  pendingTransitions);
@@ -613,10 +613,10 @@ R_<TG_, TA_>::applyRequest(Control& control,
 #endif
 
 		if (request.destination == 0)
-			_apex.deepRequest      (control, {request.type, index});
+			_apex.deepRequest      (control, {request.type, index, request.destination});
 		else {
 			_core.registry.requestImmediate(request);
-			_apex.deepForwardActive(control, {request.type, index});
+			_apex.deepForwardActive(control, {request.type, index, request.destination});
 		}
 		break;
 
